@@ -1439,6 +1439,31 @@ theorem unsupported_functions_refused :
   · intro p fn dur h
     cases fn <;> simp [Plan.accepted, h, unwrapCounts]
 
+/-- **what only ClickHouse implements is refused in process, and the two engines divide and group alike** (regenerated
+    from `internal_planner`): `topk`/`bottomk` and `quantile_over_time` are refused by `planAggregators`, `stddev`/`stdvar` by
+    `AggOpPlanner.Process` (NotSupported: a script handed over with one of them fails instead of answering differently —
+    no `engines_agree_*` for them); the three per-second functions divide by the range in nanoseconds / 1e9 (what
+    `ratOps.durSeconds` and C08's `perSecond` say; the millisecond truncation is fixed); a vector aggregation without
+    by/without is planned behind `ByWithoutPlanner{By: true}` — `by ()`, one series with the empty label set, as
+    `clickhouse_planner.planAgg` does (`Read.planVecGrouping`, C08 `vector_agg_ungrouped`). -/
+theorem gen_facts_agg :
+    Gen.InternalAgg.rateDivisions =
+      ["LRAPlanner:rate:stream.values[i] /= float64(l.Duration.Nanoseconds()) / 1e9",
+       "LRAPlanner:bytes_rate:stream.values[i] /= float64(l.Duration.Nanoseconds()) / 1e9",
+       "UnwrapAggPlanner:rate:stream.values[i] /= float64(l.Duration.Nanoseconds()) / 1e9"] ∧
+    Gen.InternalAgg.vecGrouping =
+      ["script.ByOrWithoutPrefix == nil && script.ByOrWithoutSuffix == nil",
+       "proc = &ByWithoutPlanner{GenericPlanner: GenericPlanner{proc}, By: true}",
+       "proc = planByWithout(proc, script.ByOrWithoutPrefix, script.ByOrWithoutSuffix)"] ∧
+    Gen.InternalAgg.planRefusals =
+      ["*logql_parser.QuantileOverTime: return nil, &shared.NotSupportedError{Msg: \"quantile_over_time is not supported\"}",
+       "*logql_parser.TopK: return nil, &shared.NotSupportedError{Msg: \"topk is not supported for the current request\"}"] ∧
+    Gen.InternalAgg.vecRefused = ["stddev", "stdvar"] ∧
+    Gen.InternalPlanner.vecCases = ["sum", "min", "max", "avg", "count"] ∧
+    (∀ w : Option ByWithout, planVecGrouping w = some (w.getD ⟨true, []⟩)) ∧
+    (∀ parse : Bytes → Option Rat, ∀ d : Nat, (ratOps parse).durSeconds (d : Int) = secondsOf d) :=
+  ⟨rfl, rfl, rfl, rfl, rfl, fun _ => rfl, fun _ _ => by simp [ratOps, secondsOf]⟩
+
 /-- the parameter handling of the parser stage as the source has it now — what `paramFields`, `jsonParams`,
     `aheadsFor`, `setAll`, `logfmtFields`, `parserFn` mirror: `logfmtFields` is filled only when there are parameters,
     for every parameter in order, skipping empty paths, only for a leading *string* segment, by map assignment
